@@ -114,6 +114,9 @@ class RateModel:
         self._enum = None
         self._mconsts = {}
         self._cconsts = {}
+        self._cdisp = {}
+        self._spec = {}
+        self._fnfile = None
 
     # ---------------------------------------------------------------- constants hoisted out of the methods
     def module_consts(self, file: str) -> dict:
@@ -145,33 +148,81 @@ class RateModel:
             self._mconsts[file] = out
         return self._mconsts[file]
 
-    def class_consts(self, cls: str) -> dict:
-        """{("attr", self|cls, name): IR} for class-level tables (tuple / list / set / dict displays) that no method of the MRO
-        re-assigns through self/cls: `x in self._table` is `x in (<the display>)`"""
-        if cls not in self._cconsts:
+    def class_displays(self, cls: str) -> dict:
+        """{name: (display AST node, file)} of the class-level tables (tuple / list / set / dict displays of constants, enum members and
+        other names) visible through self/cls in `cls` (MRO, the most derived binding wins) that nothing in the MRO re-assigns
+        (`self.X = ..`, setattr), mutates in place (`self.X.append(..)`, `self.X[k] = ..`) or shadows by a method."""
+        if cls not in self._cdisp:
             out = {}
             mro = [c for c in self.pkg.mro(cls) if c in self.pkg.classes]
             stored = set()
+
+            def own(n):
+                """name X of an expression self.X / cls.X"""
+                return n.attr if isinstance(n, ast.Attribute) and isinstance(n.value, ast.Name) and n.value.id in ("self", "cls") else None
             for c in mro:
                 for fn in self.pkg.classes[c].methods.values():
                     for n in ast.walk(fn):
-                        if isinstance(n, ast.Attribute) and isinstance(n.ctx, (ast.Store, ast.Del)) and isinstance(n.value, ast.Name) and n.value.id in ("self", "cls"):
+                        if isinstance(n, ast.Attribute) and isinstance(n.ctx, (ast.Store, ast.Del)) and own(n):
                             stored.add(n.attr)
                         elif isinstance(n, ast.Call) and isinstance(n.func, ast.Name) and n.func.id in ("setattr", "delattr"):
                             stored.add("*")
+                        elif isinstance(n, ast.Call) and isinstance(n.func, ast.Attribute) and own(n.func.value) and n.func.attr in \
+                                ("append", "extend", "add", "update", "insert", "pop", "remove", "clear", "sort", "reverse", "setdefault", "popitem", "discard"):
+                            stored.add(n.func.value.attr)
+                        elif isinstance(n, ast.Subscript) and isinstance(n.ctx, (ast.Store, ast.Del)) and own(n.value):
+                            stored.add(n.value.attr)
             for c in reversed(mro):
                 ci = self.pkg.classes[c]
                 for nm, node in ci.attrs.items():
                     if isinstance(node, (ast.Tuple, ast.List, ast.Set, ast.Dict)) and _literal_like(node) and nm not in stored and "*" not in stored \
                             and not any(nm in self.pkg.classes[k].methods for k in mro):
-                        ir = simp(_ev_literal(node, self.module_consts(ci.file)))
-                        out[("attr", SELF, nm)] = ir
-                        out[("attr", ("param", "cls"), nm)] = ir
+                        out[nm] = (node, ci.file)
                     else:
-                        out.pop(("attr", SELF, nm), None)
-                        out.pop(("attr", ("param", "cls"), nm), None)
+                        out.pop(nm, None)
+            self._cdisp[cls] = out
+        return self._cdisp[cls]
+
+    def class_consts(self, cls: str) -> dict:
+        """{("attr", self|cls, name): IR} for the class-level tables of class_displays: `x in self._table` is `x in (<the display>)`"""
+        if cls not in self._cconsts:
+            out = {}
+            for nm, (node, file) in self.class_displays(cls).items():
+                ir = simp(_ev_literal(node, self.module_consts(file)))
+                out[("attr", SELF, nm)] = ir
+                out[("attr", ("param", "cls"), nm)] = ir
             self._cconsts[cls] = out
         return self._cconsts[cls]
+
+    def specialised(self, cls: str, fn):
+        """`fn` (a method seen from class `cls`) with every read of a class-level table through self/cls replaced by the display it is
+        bound to, and normalised again (core._Canon / normalize: a `for row in self._TABLE` scan is now a loop over a literal and is
+        unrolled into the if/elif chain it abbreviates, `getattr(self, <name from the row>)` becomes the attribute ..).  A copy; `fn`
+        itself when it reads no such table.  Only sequence tables (tuple / list) defined in the same module are substituted (their element
+        expressions mean the same there); dict / set tables are left to the IR-level substitution of class_consts."""
+        if self._fnfile is None:
+            self._fnfile = {id(m): ci.file for ci in self.pkg.classes.values() for m in ci.methods.values()}
+        ffile = self._fnfile.get(id(fn))
+        disp = {nm: node for nm, (node, file) in self.class_displays(cls).items() if isinstance(node, (ast.Tuple, ast.List)) and file == ffile}
+        hits = [n for n in ast.walk(fn) if isinstance(n, ast.Attribute) and isinstance(n.ctx, ast.Load) and isinstance(n.value, ast.Name)
+                and n.value.id in ("self", "cls") and n.attr in disp]
+        if not hits:
+            return fn
+        key = (cls, id(fn))
+        if key not in self._spec:
+            import copy
+            from .normalize import normalize_function, module_tables
+
+            class Sub(ast.NodeTransformer):
+                def visit_Attribute(self, n):
+                    self.generic_visit(n)
+                    if isinstance(n.ctx, ast.Load) and isinstance(n.value, ast.Name) and n.value.id in ("self", "cls") and n.attr in disp:
+                        return ast.copy_location(copy.deepcopy(disp[n.attr]), n)
+                    return n
+            new = ast.fix_missing_locations(Sub().visit(copy.deepcopy(fn)))
+            mod = self.pkg.modules.get(ffile)
+            self._spec[key] = normalize_function(new, module_tables(mod) if mod is not None else None)
+        return self._spec[key]
 
     # ---------------------------------------------------------------- enums
     def basic_types(self) -> dict:
@@ -247,7 +298,8 @@ class RateModel:
         dc, fn = self.pkg.resolve(cls, meth)
         if fn is None:
             raise AnalysisError(f"{cls}.{meth} not found", (self.pkg.cls(cls).file, 0), MISSING)
-        key = (dc, meth)
+        fn0, fn = fn, self.specialised(cls, fn)
+        key = (dc, meth) if fn is fn0 else (dc, meth, cls)
         if key not in self._flows:
             no_inline = {"_beautify", "_create_species", surface_helper(self.pkg), "_parse_string", "register", "unregister"}
 
@@ -255,8 +307,8 @@ class RateModel:
                 if name in no_inline or not name.startswith("_") or name.startswith("__"):
                     return None
                 _, f = self.pkg.resolve(cls, name)
-                return f
-            self._flows[key] = Flow(fn, self.pkg.cls(dc).file, keep_arms=True, resolver=resolver, consts=self.module_consts(self.pkg.cls(dc).file))
+                return self.specialised(cls, f) if f is not None else None
+            self._flows[key] = Flow(fn, self.pkg.cls(dc).file, keep_arms=True, resolver=resolver, consts=self.module_consts(self.pkg.cls(dc).file), raise_arms=True)
         return dc, fn, self._flows[key]
 
     def variants(self, cls: str, meth: str = "rateexpr", enumerate_conditions=True) -> list:
@@ -290,6 +342,10 @@ class RateModel:
                     leaf = leaf[3][0]
                 if leaf == ("global", "NotImplemented"):
                     out.append(Variant(cls, meth, dc, file, f.line, conds, {}, "notimplemented"))
+                    continue
+                if leaf[0] == "raise" and len(leaf) == 2:
+                    # a refusing arm of a dispatch chain that lives in an inlined helper (Flow(raise_arms=True))
+                    out.append(Variant(cls, meth, dc, file, f.line, conds, {}, "raise", exc=show(leaf[1])[:80] if leaf[1] != ("const", None) else ""))
                     continue
                 if leaf[0] == "meth" and leaf[2] == "rateexpr" and leaf[1] == ("param", "grain"):
                     out.append(Variant(cls, meth, dc, file, f.line, conds, {}, "delegate", raw=leaf))
